@@ -11,6 +11,21 @@ import sercommon as S
 from common import Case, Tree, TypedTree
 
 
+import os  # noqa: E402
+
+TMP = H.WORK / f"c12_{os.getpid()}"
+
+
+def _cleanup():
+    import shutil
+    shutil.rmtree(TMP, ignore_errors=True)
+
+
+import atexit  # noqa: E402
+
+atexit.register(_cleanup)
+
+
 def label_patterns(n, rng, how_many):
     """label vectors (pre-order) with repeats = clones"""
     pats = [list(range(n))]
@@ -71,9 +86,11 @@ class Prop:
             "(clones at every relative position) x kinds x explicit ids, over str/unicode/object universes, plus seeded random trees "
             "up to 12 nodes; each x key_map in {default, off, custom} x value_map in {default, off, custom, custom-without-kind} x "
             "mapper style {none, callback, derived class}.  WRITER cases: the text written by Tree.save is parsed and compared with the "
-            "model's save_doc and with the declarative layout_doc; oracle = independent Python encoder of the documented layout. "
+            "model's save_doc and with the declarative layout_doc; oracle = independent Python encoder of the documented layout; the text written "
+            "to a str / Path target must be the same document; one meta dict reused by a second save with maps off stays untouched and gives the "
+            "layout for (off, off); class-level default maps unchanged. "
             "READER cases: documents produced by that independent encoder (never by save; object members in random order for half of them) are loaded by the implementation; oracle = "
-            "iso(source, loaded) + file meta.  The 4 literal documents of docs/sphinx/ug_serialize.rst; malformed / foreign headers. "
+            "iso(source, loaded) + file meta + the same tree with deserialize mappers that consume their dict.  The 4 literal documents of docs/sphinx/ug_serialize.rst; malformed / foreign headers. "
             "non-trivial = the document has a clone reference, a kind-differing clone, a shortened key or value")
     exhaustive_note = "all forest shapes <= N nodes (N=4 quick) with sampled labelings/options"
     assumptions = ["json.dump/json.load are the identity on JSON values (exercised: the real text is parsed)",
@@ -180,7 +197,10 @@ class Prop:
 
     def run_save(self, desc, tree, U):
         skw, _lkw, _cls = S.resolve_opts(desc)
+        import copy
+        skw_snap = copy.deepcopy({k: v for k, v in skw.items() if k in ("key_map", "value_map", "meta")})
         fail = None
+        finding = None
         try:
             fp = io.StringIO()
             tree.save(fp, **skw)
@@ -199,16 +219,60 @@ class Prop:
                 fail = f"writer: save failed with error class {obs[0][1]} although the layout is defined"
             elif got != exp:
                 fail = f"writer: document differs from the documented layout: got {json.dumps(got)[:600]} expected {json.dumps(exp)[:600]}"
+        if exp is not None and got is not None and not fail:
+            fail = self.more_writer_checks(desc, tree, skw, got)
+        if not fail:
+            now = {k: v for k, v in skw.items() if k in skw_snap}
+            if now != skw_snap:
+                # D90: TypedTree.save writes the collected kinds into the caller's value_map dict
+                fail = f"D90: save() modified the dicts handed in by the caller: {now} (were {skw_snap})"
+                finding = "D90"
+        fail = fail or S.class_defaults_changed()
         coq = f"CSave {S.coq_sopts(desc, tree, U)} {H.coq_forest(tree._root, U)}"
         if desc.get("outside"):
             coq, obs = "CSaveRaw" + coq[5:], obs[0]
         nodes = (got or {}).get("nodes", [])
         refs = sum(1 for e in nodes if isinstance(e[1], int))
-        return Case(desc=desc, coq_input=coq, impl_obs=obs, oracle_fail=fail,
+        return Case(desc=desc, coq_input=coq, impl_obs=obs, oracle_fail=fail, finding=finding,
                     nontrivial=refs > 0 or any(isinstance(e[1], dict) for e in nodes),
                     key=H.digest([desc.get("nodes"), desc.get("km"), desc.get("vm"), desc.get("typed"), desc.get("mapper"), "s"]),
                     stats=dict(kind="save", nodes=len(nodes), refs=min(refs, 4), km=desc.get("km"), vm=desc.get("vm"),
                                typed=bool(desc.get("typed")), mapper=desc.get("mapper"), ok=got is not None))
+
+    def more_writer_checks(self, desc, tree, skw, got):
+        """the options mean the same for every target kind; save leaves the caller's dicts alone"""
+        import copy
+        TMP.mkdir(parents=True, exist_ok=True)
+        # (a) PATH target (str and Path) vs. the stream target: the same document, i.e. the layout
+        for target in (str(TMP / "w.nutree"), TMP / "w2.nutree"):
+            try:
+                tree.save(target, **skw)
+                doc = json.loads(open(target, encoding="utf8").read())
+            except Exception as e:  # noqa: BLE001
+                return f"writer: save to a {type(target).__name__} target fails: {e!r:.200}"
+            if doc != got:
+                return (f"writer: the document written to a {type(target).__name__} target differs from the one written to a stream "
+                        f"(= the layout): {json.dumps(doc)[:500]} instead of {json.dumps(got)[:500]}")
+        # (b) one meta dict object reused by a second save with both maps off
+        m = dict(desc.get("meta") or {"foo": "bar"})
+        snap = copy.deepcopy(m)
+        skw0, _l, _c = S.resolve_opts(dict(desc, km="false", vm="false"))
+        try:
+            tree.save(io.StringIO(), **{**skw, "meta": m})
+            if m != snap:
+                return f"writer: save() modified the caller's meta dict: {m} (was {snap})"
+            fp = io.StringIO()
+            tree.save(fp, **{**skw0, "meta": m})
+            doc2 = json.loads(fp.getvalue())
+        except Exception as e:  # noqa: BLE001
+            return f"writer: two saves with one meta dict: {e!r:.200}"
+        if m != snap:
+            return f"writer: save() modified the caller's meta dict: {m} (was {snap})"
+        exp2 = self.expected_doc(dict(desc, km="false", vm="false", meta=snap), tree)
+        if doc2 != exp2:
+            return (f"writer: second save (maps off) reusing the meta dict differs from the layout: {json.dumps(doc2)[:500]} "
+                    f"expected {json.dumps(exp2)[:500]}")
+        return None
 
     def load_obs(self, cls, text, lkw):
         meta = {}
@@ -258,6 +322,16 @@ class Prop:
                 finding = "D40"
             if not fail and meta != doc["meta"]:
                 fail = f"reader: file meta {meta} != stored {doc['meta']}"
+            if not fail:
+                for style, tc in S.consuming_loads(cls, lkw, text):
+                    if isinstance(tc, Exception):
+                        fail = f"reader: load with a dict-consuming deserialize mapper ({style}) fails: {tc!r:.200}"
+                    elif S.canon(tc._root) != S.canon(t2._root):
+                        fail = (f"reader: with a deserialize mapper ({style}) that pops 'data_id'/'kind' from its dict the loaded tree "
+                                f"differs: {S.canon(tc._root)} instead of {S.canon(t2._root)}")
+                    if fail:
+                        break
+        fail = fail or S.class_defaults_changed()
         strings = set()
         S.all_strings(doc, strings)
         coq = f"CLoad {S.coq_lenv(bool(desc.get('typed')), ms, strings, hashes)} {S.jv_coq(doc)}"
@@ -378,6 +452,8 @@ CORPUS = [
     # clones of differing kind, clone nested below its first occurrence
     dict(kind="save", typed=True, univ=["s:x", "s:y", "e:1"], nodes=[[0, "a", None, [[1, "a", None, [[0, "b", None, []]]]]], [2, "a", None, [[0, "a", None, []], [2, "b", None, []]]]], km="custom", vm="custom", mapper="cb"),
     dict(kind="load", typed=True, univ=["s:x", "s:y", "e:1"], nodes=[[0, "a", None, [[1, "a", None, [[0, "b", None, []]]]]], [2, "a", None, [[0, "a", None, []], [2, "b", None, []]]]], km="custom", vm="custom", mapper="cb"),
+    # D90: TypedTree.save(value_map=<dict without "kind">) writes the kind list into the caller's dict
+    dict(kind="save", typed=True, univ=["s:x", "s:y"], nodes=[[0, "a", None, [[1, "b", None, []]]]], km="true", vm="custom_nokind", mapper="cb", meta=None, calc=None),
     # D40 (known): identity-hashed data, clone of another kind
     dict(kind="load", typed=True, univ=["p:1", "s:y"], nodes=[[0, "a", None, []], [1, "a", None, [[0, "b", None, []]]]], km="true", vm="true", mapper="cb"),
 ]
